@@ -112,6 +112,15 @@ CHECKS = {
         note='Trusted: the generator evaluates the same wrapping u64 arithmetic as the program. At opt-level 1 only shown values are judged, not '
              'the set of listed names (the DWARF lexical blocks need not follow the source).',
         ref='DESIGN.md §4 C19'),
+    'C16': dict(
+        technique='runtime monitoring: before/after state monitor around every injected call (full PTRACE_GETREGS/GETFPREGS of all threads, text diff, maps, red zone bytes, the callee\'s own argument log) plus output differential against the native run',
+        text='At stops in a leaf with locals below rsp, in a loop, in live floating point code, in a worker thread and with the main thread blocked '
+             'in a futex,  with boundary literals must add exactly one entry with exactly those arguments to the log the functions '
+             'write and leave registers of every thread (incl. orig_rax and the FXSAVE area), code bytes, the memory map and the 128 bytes below rsp '
+             'identical; impossible calls (unknown function, wrong arity, string/float literal, ill-typed argument) must fail with identical state; '
+             'the program then produces its native output; vard equals the program\'s own {:?} lines. Held after the red-zone fix commit.',
+        note='Trusted: raw ptrace register reads and /proc by the monitor, the log the called functions write, the native run.',
+        ref='DESIGN.md §4 C16'),
     'C06': dict(
         technique='runtime monitoring: structural comparison of the debugger\'s Value trees with the debuggee\'s own canonical self-description (reference model = safe Rust in the program)',
         text='Generated programs hold ~40 variables each (locals, statics, thread-locals, arguments) from a recursive type grammar with boundary '
